@@ -552,7 +552,7 @@ class xarray_rolling_values:
             yield {"n": n, "chunk": chunk, "windows": tuple(range(2, 2 * chunk + 2))}
 
 
-@contract("dask_array/random/_choice.py::_choice_rng", spec="graph-literals-not-advanced", props=["C10"])
+@contract("dask_array/random/_choice.py::_choice_rng", spec="graph-literals-not-advanced", props=["C10", "C23"])
 class random_tasks_repeatable:
     """executing the graph of a random collection does not modify what the graph holds: a second execution of the same
     collection -- serial or threaded -- returns the same numbers (a task that advances a bit generator stored in the graph
@@ -604,6 +604,85 @@ class random_tasks_repeatable:
                    "rs-random", "rs-choice"):
             for ch in (5, 20, 7):
                 yield {"op": op, "chunks": ch}
+
+
+@contract("dask_array/random/_utils.py::_wrap_func", spec="one-realization", props=["C23"])
+class random_one_realization:
+    """a random array built from a seeded Generator / RandomState is ONE realization: computing it again gives the same
+    values, every derived computation (slice, rechunk, transpose, elementwise, reduction, fused or not) is computed from
+    those same values -- whichever is computed first --, and rebuilding with the same seed, shape and chunks reproduces
+    them"""
+    bounded_only = True
+    params = {"kind": "const", "dist": "const", "chunks": "const", "derived_first": "const"}
+    scope = "Generator and RandomState; 9 distributions; 6x8 arrays in 3 layouts; 8 derived programs; both compute orders"
+
+    def real():
+        return lambda: None
+
+    def call(fn, kind, dist, chunks, derived_first):
+        import numpy as np
+        import dask_array as da
+
+        def build():
+            g = da.random.default_rng(11) if kind == "generator" else da.random.RandomState(11)
+            kw = {"size": (6, 8), "chunks": chunks}
+            if dist == "uniform01":
+                return g.random(**kw) if kind == "generator" else g.random_sample(**kw)
+            if dist == "integers":
+                return g.integers(0, 100, **kw) if kind == "generator" else g.randint(0, 100, **kw)
+            if dist == "normal":
+                return g.normal(2.0, 3.0, **kw)
+            if dist == "poisson":
+                return g.poisson(4.0, **kw)
+            if dist == "binomial":
+                return g.binomial(10, 0.3, **kw)
+            if dist == "exponential":
+                return g.exponential(2.0, **kw)
+            if dist == "standard_normal":
+                return g.standard_normal(**kw)
+            if dist == "uniform":
+                return g.uniform(-1.0, 1.0, **kw)
+            if dist == "choice":
+                return g.choice(17, **kw) if kind == "generator" else g.choice(17, size=48, chunks=chunks[0] * chunks[1]).reshape(6, 8)
+            raise ValueError(dist)
+
+        progs = {"slice": lambda t: t[1:5, ::2], "rechunk": lambda t: t.rechunk((2, 8)) if hasattr(t, "rechunk") else t,
+                 "T": lambda t: t.T, "plus": lambda t: t + 1, "sum0": lambda t: t.sum(axis=0), "col": lambda t: (t * 2)[:, 3],
+                 "mean": lambda t: t.mean(), "fused": lambda t: ((t + 1) * 2 - t)[::-1]}
+        x = build()
+        derived = {k: f(x) for k, f in progs.items()}
+        if derived_first:
+            dvals = {k: np.asarray(v.compute()) for k, v in derived.items()}
+            r1 = np.asarray(x.compute())
+        else:
+            r1 = np.asarray(x.compute())
+            dvals = {k: np.asarray(v.compute()) for k, v in derived.items()}
+        r2 = np.asarray(x.compute(scheduler="sync"))
+        rebuilt = np.asarray(build().compute())
+        want = {k: np.asarray(f(r1)) for k, f in progs.items()}
+        return r1, r2, rebuilt, dvals, want
+
+    def requires(kind, dist, chunks, derived_first):
+        return True
+
+    def ensures(result, kind, dist, chunks, derived_first):
+        r1, r2, rebuilt, dvals, want = result
+        return {"computing-again-gives-the-same-values": _same(r1, r2),
+                "derived-computations-use-the-same-realization": all(_same(dvals[k], want[k]) for k in want),
+                "same-seed-shape-chunks-rebuild-the-same-values": _same(r1, rebuilt),
+                "not-degenerate": float(np_std(r1)) > 0}
+
+    def domain(tier, rng):
+        for kind in ("generator", "randomstate"):
+            for dist in ("uniform01", "integers", "normal", "poisson", "binomial", "exponential", "standard_normal", "uniform", "choice"):
+                for chunks in ((3, 4), (6, 8), (2, 3)):
+                    for first in (False, True):
+                        yield {"kind": kind, "dist": dist, "chunks": chunks, "derived_first": first}
+
+
+def np_std(a):
+    import numpy as np
+    return np.std(np.asarray(a, dtype=float))
 
 
 @contract("dask_array/manipulation/_squeeze.py::squeeze", spec="unknown-axis", props=["C28"])
